@@ -69,7 +69,7 @@ namespace Normalizer
 @[simp] theorem dense_nCol (n : Normalizer) : n.dense.nCol = n.adj.nCol := rfl
 
 theorem get_dense (n : Normalizer) {i j : Nat} (hi : i < n.adj.nRow) (hj : j < n.adj.nCol) :
-    n.dense.get i j = vget n.normDiag i * (n.adj.get i j + if n.reg > 0 then n.reg / (n.adj.nCol : Rat) else 0) := by
+    n.dense.get i j = vget n.normDiag i * (n.adj.get i j + if n.reg ≠ 0 then n.reg / (n.adj.nCol : Rat) else 0) := by
   unfold dense; rw [Mat.get_ofFn]; simp [hi, hj]
 
 theorem matvec_length (n : Normalizer) (v : Vec) : (n.matvec v).length = n.adj.nRow := by
@@ -84,21 +84,21 @@ theorem matvec_eq_dense (n : Normalizer) (v : Vec) (hv : v.length = n.adj.nCol) 
   rw [Mat.vget_mulVec, dense_nCol]
   have e : sumTo n.adj.nCol (fun j => n.dense.get i j * vget v j)
       = sumTo n.adj.nCol (fun j => vget n.normDiag i *
-          (n.adj.get i j * vget v j + (if n.reg > 0 then n.reg / (n.adj.nCol : Rat) else 0) * vget v j)) := by
+          (n.adj.get i j * vget v j + (if n.reg ≠ 0 then n.reg / (n.adj.nCol : Rat) else 0) * vget v j)) := by
     apply sumTo_congr; intro j hj
     rw [get_dense n hi hj]; ring
   rw [e, sumTo_mul_left, sumTo_add, sumTo_mul_left]
   unfold matvec
   simp only [vget_tab, hi, if_true]
-  by_cases hr : n.reg > 0
-  · simp only [hr, if_true, vget_tab, hi, Mat.vget_mulVec]
+  by_cases hr : n.reg ≠ 0
+  · simp only [if_pos hr, if_true, vget_tab, hi, Mat.vget_mulVec]
     unfold vmean vsum
     rw [hv]; ring
-  · simp only [hr, if_false, Mat.vget_mulVec]; ring
+  · simp only [if_neg hr, Mat.vget_mulVec]; ring
 
 theorem rmatvec_length (n : Normalizer) (v : Vec) : (n.rmatvec v).length = n.adj.nCol := by
   unfold rmatvec
-  by_cases hr : n.reg > 0 <;> simp [hr]
+  by_cases hr : n.reg ≠ 0 <;> simp [hr]
 
 /-- **`_rmatvec` of a Normalizer is the product by the transposed dense matrix** -/
 theorem rmatvec_eq_dense (n : Normalizer) (v : Vec) : n.rmatvec v = n.dense.transpose.mulVec v := by
@@ -109,7 +109,7 @@ theorem rmatvec_eq_dense (n : Normalizer) (v : Vec) : n.rmatvec v = n.dense.tran
   simp only [Mat.transpose_nCol, dense_nRow, Mat.get_transpose]
   have e : sumTo n.adj.nRow (fun i => n.dense.get i j * vget v i)
       = sumTo n.adj.nRow (fun i => n.adj.get i j * (vget n.normDiag i * vget v i)
-          + (if n.reg > 0 then n.reg / (n.adj.nCol : Rat) else 0) * (vget n.normDiag i * vget v i)) := by
+          + (if n.reg ≠ 0 then n.reg / (n.adj.nCol : Rat) else 0) * (vget n.normDiag i * vget v i)) := by
     apply sumTo_congr; intro i hi
     rw [get_dense n hi hj]; ring
   rw [e, sumTo_add, sumTo_mul_left]
@@ -124,12 +124,12 @@ theorem rmatvec_eq_dense (n : Normalizer) (v : Vec) : n.rmatvec v = n.dense.tran
     sumTo_congr (fun i hi => by rw [hw i hi])
   have hsum : vsum w = sumTo n.adj.nRow (fun i => vget n.normDiag i * vget v i) := by
     unfold vsum; rw [hwl]; exact sumTo_congr (fun i hi => hw i hi)
-  by_cases hr : n.reg > 0
-  · simp only [hr, if_true]
+  by_cases hr : n.reg ≠ 0
+  · simp only [if_pos hr]
     rw [vget_tab, if_pos hj, Mat.vget_mulVec]
     simp only [Mat.transpose_nCol, Mat.get_transpose]
     rw [hs, hsum]; ring
-  · simp only [hr, if_false]
+  · simp only [if_neg hr]
     rw [Mat.vget_mulVec]
     simp only [Mat.transpose_nCol, Mat.get_transpose]
     rw [hs]; ring
@@ -145,15 +145,15 @@ theorem matmat_eqv_dense (n : Normalizer) (x : Mat) (hx : x.nRow = n.adj.nCol) :
     simp only [hi, hk, and_self, if_true]
     have e : sumTo n.adj.nCol (fun j => n.dense.get i j * x.get j k)
         = sumTo n.adj.nCol (fun j => vget n.normDiag i *
-            (n.adj.get i j * x.get j k + (if n.reg > 0 then n.reg / (n.adj.nCol : Rat) else 0) * x.get j k)) := by
+            (n.adj.get i j * x.get j k + (if n.reg ≠ 0 then n.reg / (n.adj.nCol : Rat) else 0) * x.get j k)) := by
       apply sumTo_congr; intro j hj
       rw [get_dense n hi hj]; ring
     rw [e, sumTo_mul_left, sumTo_add, sumTo_mul_left]
-    by_cases hr : n.reg > 0
-    · simp only [hr, if_true, Mat.get_ofFn, hi, hk, and_self, Mat.get_mul]
+    by_cases hr : n.reg ≠ 0
+    · simp only [if_pos hr, if_true, Mat.get_ofFn, hi, hk, and_self, Mat.get_mul]
       unfold Mat.col
       rw [vsum_tab, hx]; ring
-    · simp only [hr, if_false, Mat.get_mul]; ring
+    · simp only [if_neg hr, Mat.get_mul]; ring
   · simp only [hik, if_false]
     symm; apply sumTo_eq_zero; intro j _
     by_cases hi : i < n.adj.nRow
@@ -164,7 +164,7 @@ theorem matmat_eqv_dense (n : Normalizer) (x : Mat) (hx : x.nRow = n.adj.nCol) :
 /-- **2-d branch of `_rmatvec`** -/
 theorem rmatmat_eqv_dense (n : Normalizer) (x : Mat) : Mat.Eqv (n.rmatmat x) (n.dense.transpose.mul x) := by
   have hshape : (n.rmatmat x).nRow = n.adj.nCol ∧ (n.rmatmat x).nCol = x.nCol := by
-    unfold rmatmat; by_cases hr : n.reg > 0 <;> simp [hr]
+    unfold rmatmat; by_cases hr : n.reg ≠ 0 <;> simp [hr]
   refine ⟨hshape.1, hshape.2, fun j k => ?_⟩
   by_cases hjk : j < n.adj.nCol ∧ k < x.nCol
   · obtain ⟨hj, hk⟩ := hjk
@@ -172,7 +172,7 @@ theorem rmatmat_eqv_dense (n : Normalizer) (x : Mat) : Mat.Eqv (n.rmatmat x) (n.
     simp only [Mat.transpose_nCol, dense_nRow, Mat.get_transpose]
     have e : sumTo n.adj.nRow (fun i => n.dense.get i j * x.get i k)
         = sumTo n.adj.nRow (fun i => n.adj.get i j * (vget n.normDiag i * x.get i k)
-            + (if n.reg > 0 then n.reg / (n.adj.nCol : Rat) else 0) * (vget n.normDiag i * x.get i k)) := by
+            + (if n.reg ≠ 0 then n.reg / (n.adj.nCol : Rat) else 0) * (vget n.normDiag i * x.get i k)) := by
       apply sumTo_congr; intro i hi
       rw [get_dense n hi hj]; ring
     rw [e, sumTo_add, sumTo_mul_left]
@@ -190,20 +190,20 @@ theorem rmatmat_eqv_dense (n : Normalizer) (x : Mat) : Mat.Eqv (n.rmatmat x) (n.
       unfold Mat.col
       rw [vsum_tab, hwr]
       exact sumTo_congr (fun i hi => hw i hi)
-    by_cases hr : n.reg > 0
-    · simp only [hr, if_true]
+    by_cases hr : n.reg ≠ 0
+    · simp only [if_pos hr]
       rw [Mat.get_ofFn, if_pos ⟨hj, hk⟩, Mat.get_mul]
       simp only [Mat.transpose_nCol, Mat.get_transpose]
       rw [hs, hc]; ring
-    · simp only [hr, if_false]
+    · simp only [if_neg hr]
       rw [Mat.get_mul]
       simp only [Mat.transpose_nCol, Mat.get_transpose]
       rw [hs]; ring
   · rw [Mat.get_of_not_lt (by rw [hshape.1, hshape.2]; exact hjk),
       Mat.get_of_not_lt (by simpa using hjk)]
 
-/-- **the constructor gives `D⁺ (A + reg/n 1 1ᵀ)`**, `D = diag((A + reg/n 1 1ᵀ) 1)`, for `reg ≥ 0` -/
-theorem init_dense (a : Mat) (reg : Rat) (hreg : 0 ≤ reg) :
+/-- **the constructor gives `D⁺ (A + reg/n 1 1ᵀ)`**, `D = diag((A + reg/n 1 1ᵀ) 1)`, for every `reg` -/
+theorem init_dense (a : Mat) (reg : Rat) :
     Mat.Eqv (init a reg).dense (rowNormalized (regularized a reg)) := by
   refine ⟨rfl, rfl, fun i j => ?_⟩
   by_cases hij : i < a.nRow ∧ j < a.nCol
@@ -221,9 +221,9 @@ theorem init_dense (a : Mat) (reg : Rat) (hreg : 0 ≤ reg) :
     unfold regularized
     rw [Mat.get_add (by simp) (by simp)]
     simp only [Mat.get_const, hi, hj, and_self, if_true]
-    by_cases hr : reg > 0
+    by_cases hr : reg ≠ 0
     · simp [hr]
-    · have : reg = 0 := le_antisymm (not_lt.mp hr) hreg
+    · have : reg = 0 := not_not.mp hr
       subst this; simp
   · rw [Mat.get_of_not_lt (a := (init a reg).dense) (by show ¬ (i < a.nRow ∧ j < a.nCol); exact hij),
       Mat.get_of_not_lt (a := rowNormalized (regularized a reg)) (by show ¬ (i < a.nRow ∧ j < a.nCol); exact hij)]
@@ -238,7 +238,7 @@ namespace Laplacian
 
 theorem get_dense (l : Laplacian) {i j : Nat} (hi : i < l.lap.nRow) (hj : j < l.lap.nRow) :
     l.dense.get i j = vget l.dvec i * (l.lap.get i j +
-      (if l.reg > 0 then l.reg * ((if i = j then 1 else 0) - 1 / (l.lap.nRow : Rat)) else 0)) * vget l.dvec j := by
+      (if l.reg ≠ 0 then l.reg * ((if i = j then 1 else 0) - 1 / (l.lap.nRow : Rat)) else 0)) * vget l.dvec j := by
   unfold dense; rw [Mat.get_ofFn]; simp [hi, hj]
 
 /-- `scale` multiplies by `dvec` (the identity when the Laplacian is not normalised) -/
@@ -272,24 +272,24 @@ theorem matvec_eq_dense (l : Laplacian) (v : Vec) (hsq : l.lap.nCol = l.lap.nRow
   have hp : ∀ w : Vec, w.length = l.lap.nRow → (l.scale w).length = l.lap.nRow := fun w hw => scale_length l w hw
   have hlen : (l.matvec v).length = l.lap.nRow := by
     unfold matvec
-    by_cases hr : l.reg > 0
-    · simp only [hr, if_true]; exact hp _ (by simp)
-    · simp only [hr, if_false]; exact hp _ (by simp)
+    by_cases hr : l.reg ≠ 0
+    · simp only [if_pos hr]; exact hp _ (by simp)
+    · simp only [if_neg hr]; exact hp _ (by simp)
   apply vec_ext (by rw [hlen]; simp)
   intro i hi
   rw [hlen] at hi
   rw [Mat.vget_mulVec, dense_nCol]
   have e : sumTo l.lap.nRow (fun j => l.dense.get i j * vget v j)
       = sumTo l.lap.nRow (fun j => vget l.dvec i * (l.lap.get i j * (vget l.dvec j * vget v j)
-          + (if l.reg > 0 then l.reg * ((if i = j then vget l.dvec j * vget v j else 0)
+          + (if l.reg ≠ 0 then l.reg * ((if i = j then vget l.dvec j * vget v j else 0)
               - 1 / (l.lap.nRow : Rat) * (vget l.dvec j * vget v j)) else 0))) := by
     apply sumTo_congr; intro j hj
     rw [get_dense l hi hj]
-    by_cases hr : l.reg > 0 <;> by_cases hij : i = j <;> simp [hr, hij] <;> ring
+    by_cases hr : l.reg ≠ 0 <;> by_cases hij : i = j <;> simp [hr, hij] <;> ring
   rw [e, sumTo_mul_left, sumTo_add]
   unfold matvec
-  by_cases hr : l.reg > 0
-  · simp only [hr, if_true]
+  by_cases hr : l.reg ≠ 0
+  · simp only [if_pos hr]
     rw [vget_scale l _ (by simp), vget_tab, if_pos hi, Mat.vget_mulVec, hsq, sumTo_mul_left, sumTo_sub,
       sumTo_ite_eq', if_pos hi, sumTo_mul_left]
     have e2 : sumTo l.lap.nRow (fun j => l.lap.get i j * vget (l.scale v) j)
@@ -301,7 +301,7 @@ theorem matvec_eq_dense (l : Laplacian) (v : Vec) (hsq : l.lap.nCol = l.lap.nRow
       rw [sumTo_congr (fun j _ => vget_scale l v hv j)]
       ring
     rw [e2, e3, vget_scale l v hv]
-  · simp only [hr, if_false]
+  · simp only [if_neg hr]
     rw [vget_scale l _ (by simp), Mat.vget_mulVec, hsq]
     have e2 : sumTo l.lap.nRow (fun j => l.lap.get i j * vget (l.scale v) j)
         = sumTo l.lap.nRow (fun j => l.lap.get i j * (vget l.dvec j * vget v j)) :=
@@ -326,7 +326,7 @@ theorem transpose_dense (l : Laplacian) (hsq : l.lap.nCol = l.lap.nRow) :
     have e1 : l.transpose.lap.get i j = l.lap.get j i := by show l.lap.transpose.get i j = _; simp
     have e2 : l.transpose.reg = l.reg := rfl
     rw [e1, e2]
-    by_cases hr : l.reg > 0 <;> by_cases h : i = j
+    by_cases hr : l.reg ≠ 0 <;> by_cases h : i = j
     · subst h; simp [hr]
     · have h' : ¬ j = i := fun e => h e.symm
       simp [hr, h, h']; ring
@@ -361,9 +361,9 @@ theorem get_regLap (a : Mat) (reg : Rat) (hsq : a.nCol = a.nRow) {i j : Nat} (hi
   · simp [h]
 
 /-- **the constructor gives the documented matrix**: `D' - A'` for the regularised adjacency, and
-    `N (D' - A') N` with `N = diag(1/sqrt)⁺` when normalised (`sq` = the square roots, external), `reg ≥ 0` -/
+    `N (D' - A') N` with `N = diag(1/sqrt)⁺` when normalised (`sq` = the square roots, external), for every `reg` -/
 theorem init_dense {a : Mat} {reg : Rat} {nz : Bool} {sq : Vec} {l : Laplacian}
-    (h : init a reg nz sq = .ok l) (hreg : 0 ≤ reg) :
+    (h : init a reg nz sq = .ok l) :
     Mat.Eqv l.dense (if nz then (Mat.diag a.nRow (pinvVec sq)).mul ((regLap a reg).mul (Mat.diag a.nRow (pinvVec sq)))
       else regLap a reg) := by
   obtain ⟨-, hn, hsq⟩ := init_square h
@@ -387,11 +387,11 @@ theorem init_dense {a : Mat} {reg : Rat} {nz : Bool} {sq : Vec} {l : Laplacian}
         by_cases e : i = j
         · subst e; simp only [hi, and_self, if_true]
         · simp only [e, and_false, if_false]
-      have hK : (if reg > 0 then reg * ((if i = j then 1 else 0) - 1 / (a.nRow : Rat)) else 0)
+      have hK : (if reg ≠ 0 then reg * ((if i = j then 1 else 0) - 1 / (a.nRow : Rat)) else 0)
           = reg * ((if i = j then 1 else 0) - 1 / (a.nRow : Rat)) := by
-        by_cases hr : reg > 0
+        by_cases hr : reg ≠ 0
         · simp [hr]
-        · have : reg = 0 := le_antisymm (not_lt.mp hr) hreg
+        · have : reg = 0 := not_not.mp hr
           subst this; simp
       show vget (Laplacian.dvec _) i * (_ + _) * vget (Laplacian.dvec _) j = _
       simp only [Mat.diag_nRow, Mat.sub_nRow]
